@@ -69,13 +69,13 @@ class Net:
                 spec = {"addr": spec}
             cls = spec.get("cls", H.RF24Network)
             key = spec.get("key", spec.get("addr"))
-            n, r = H.mk_node(self.w, spec.get("addr", 0), cls=cls, cost=base + k * US,
+            n, r = H.mk_node(self.w, spec.get("pre_addr", spec.get("addr", 0)), cls=cls, cost=base + k * US,
                              name=spec.get("name") or ("n%o" % key if isinstance(key, int) else str(key)),
                              spilog=spilog, node_id=spec.get("node_id"))
             for attr, val in spec.get("attrs", {}).items():
                 setattr(n, attr, val)
-            if spec.get("rebegin"):
-                n.node_address = spec["addr"]
+            if spec.get("rebegin") or "pre_addr" in spec:
+                n.node_address = spec["addr"]  # (re-)assignment after construction, as a mesh renewal does
             self.nodes[key] = n
             self.radios[key] = r
         self.built_at = self.w.now
